@@ -17,6 +17,7 @@ func init() {
 }
 
 func runC15(w *World, r *Report) {
+	defer catalogStatePairs(w, r, "C15-R10")
 	r.Rule("C15-R1", "no loop-carried name reaches a key constructor", "inside the loops of GetAllDroppedObj every argument of util.Get*InfoKeys is defined in the current iteration: it does not flow from a phi at the loop header (value of the previous iteration)", 4)
 	r.Rule("C15-R2", "horizon shape", "stores into the result tables are `tt - k` (tt = ComposeTSByTime of the TSO key) or `created[key] - k` with k a positive constant and the same key", 5)
 	r.Rule("C15-R3", "entries only for dropped state", "every first-time store into a result table is dominated by a Dropped/Dropping state test or the database-gone test", 3)
